@@ -576,6 +576,8 @@ type DlgSpec struct {
 	NonceLen int        `json:"nonce_len,omitempty"`  // 0: generated
 	Meta     []MetaSpec `json:"meta,omitempty"`
 	UseRoot  bool       `json:"use_root,omitempty"`  // constructed with delegation.Root
+	RawCmd   string     `json:"raw_cmd,omitempty"`   // a deviating (byzantine) issuer: the sealed token's cmd is rewritten to this text and re-signed with the issuer's key; the model reads it as the command
+	ShareOpt string     `json:"share_opt,omitempty"` // the expiration option VALUE is created once under this name and reused by every delegation that names it (issuers that build their options once)
 	PolFrom  string     `json:"pol_from,omitempty"`  // attenuation idiom: the policy is append(<that delegation object>.Policy(), own statements...); Pol lists all of them
 	PolSpare bool       `json:"pol_spare,omitempty"` // policy assembled with append(policy.Construct(a...), policy.Construct(b...)...): slice with spare capacity
 }
